@@ -36,6 +36,18 @@ fn base_product(d: &Dims) -> String {
 const SMALL_DB: &str = "m !meter\ns !second\nkg !kilogram\nlength ? m\nduration ? s\nspeed ? length / duration\nrate ? 1 / duration\nheft ? kg\nmile 1609 m\n";
 const SMALL_XS: [&str; 6] = ["m / s", "m", "1 / s", "kg m / s", "m^2", "speed"];
 
+const CAT_QUERIES: [&str; 4] = ["units for foo", "units for bar", "units for 5 baz", "units for baz^2 / foo"];
+const CATS: [Option<(&str, &str)>; 3] = [None, Some(("aa", "Category A")), Some(("bb", "Category B"))];
+
+fn cat_db(d: &[u64]) -> String {
+    let wrap = |c: u64, def: &str| match CATS[c as usize] {
+        None => format!("{}\n", def),
+        Some((id, name)) => format!("!category {} \"{}\"\n{}\n!endcategory\n", id, name, def),
+    };
+    let base = if d[0] == 0 { "foo !" } else { "foo !foolong" };
+    format!("{}{}{}", wrap(d[1], base), wrap(d[2], "bar 2 foo"), wrap(d[3], "baz 3 foo"))
+}
+
 fn score(d: &Dims) -> i64 {
     d.values().map(|p| 1 + p.abs()).sum()
 }
@@ -97,6 +109,8 @@ impl C17 {
         fams.add("units for X", vec![xs.len() as u64]);
         fams.add("factorize X", vec![xs.len() as u64]);
         fams.add("another database on the same thread / a further load on the same context", vec![SMALL_XS.len() as u64, 2]);
+        // small databases with categories: a base unit with / without a long name and two derived units, each in one of two categories or in none
+        fams.add("categorised small databases: base unit long name x category of each of three definitions x query", vec![2, 3, 3, 3, CAT_QUERIES.len() as u64]);
         C17 { fams, xs, max_score: if thorough { 9 } else { 8 }, dump, ctx: Lazy::new() }
     }
 
@@ -192,7 +206,7 @@ impl Space for C17 {
         Meta {
             id: "C17",
             level: "exploration",
-            rule: "every named quantity, every dimensionality occurring in the registry and every product of up to 2 (thorough 3) base units with exponents in -3..3, each written as the quantity name, as a unit of that dimensionality, as a product of base units, and as that product with an extra factor raised to the power 0 (`p b^0`, `(p)^0 p`): `units for X` must list exactly the non-alias units of the registry dump with that exponent vector (plus the base unit itself for a single base unit to the first power), each once, under its own category's display name, with non-empty non-repeated groups, identically for all spellings; `factorize X` (complexity score bounded) must return only products of quantities whose exponent vectors multiply out to X's, no duplicates, identically for all spellings. Plus a second, small database with its own quantity names asked on the same thread after the bundled one, and the same database after a further load renamed a quantity: every name in an answer must belong to the context that was asked. Non-trivial = all; distinct by (command, dimensionality)".into(),
+            rule: "every named quantity, every dimensionality occurring in the registry and every product of up to 2 (thorough 3) base units with exponents in -3..3, each written as the quantity name, as a unit of that dimensionality, as a product of base units, and as that product with an extra factor raised to the power 0 (`p b^0`, `(p)^0 p`): `units for X` must list exactly the non-alias units of the registry dump with that exponent vector (plus the base unit itself for a single base unit to the first power), each once, under its own category's display name, with non-empty non-repeated groups, identically for all spellings; `factorize X` (complexity score bounded) must return only products of quantities whose exponent vectors multiply out to X's, no duplicates, identically for all spellings. Plus a second, small database with its own quantity names asked on the same thread after the bundled one, and the same database after a further load renamed a quantity: every name in an answer must belong to the context that was asked. Plus 54 small databases with categories (a base unit with or without a long name and two derived units, each in `Category A`, `Category B` or none) x 4 spellings: every unit once, under its own category, no category listed twice, none missing. Non-trivial = all; distinct by (command, dimensionality)".into(),
             assumptions: vec![
                 "factorize beyond the complexity bound is exponential: not explored here (C04 records it); a timeout inside the bound is recorded, not judged".into(),
             ],
@@ -205,6 +219,9 @@ impl Space for C17 {
     }
     fn describe(&self, idx: u64) -> String {
         let (f, d) = self.fams.locate(idx);
+        if f == 3 {
+            return format!("`{}` on the database {:?}", CAT_QUERIES[d[4] as usize], cat_db(&d));
+        }
         if f == 2 {
             return format!("factorize / units for {} on a small database {}", SMALL_XS[d[0] as usize], if d[1] == 0 { "after the bundled one on the same thread" } else { "after a further load renamed a quantity" });
         }
@@ -229,6 +246,62 @@ impl Space for C17 {
     fn run(&mut self, idx: u64) -> CaseOut {
         if self.fams.locate(idx).0 == 2 {
             return self.run_other_db(idx);
+        }
+        if self.fams.locate(idx).0 == 3 {
+            let (_, d) = self.fams.locate(idx);
+            let text = cat_db(&d);
+            let q = CAT_QUERIES[d[4] as usize];
+            let mut out = CaseOut::ok("categorised database").key(hash64(&(&text, q)));
+            let mut small = Context::new();
+            small.use_humanize = false;
+            let (res, printed) = capture_stdout(|| small.load_definitions(&text));
+            if res.is_err() || !printed.trim().is_empty() {
+                return out.viol("harness: the categorised database does not load cleanly", format!("{:?}: {:?} {}", text, res, printed));
+            }
+            let base_name = if d[0] == 0 { "foo" } else { "foolong" };
+            let own_cat = |c: u64| CATS[c as usize].map(|(_, n)| n.to_string());
+            let want: Vec<(&str, Option<String>)> = vec![("bar", own_cat(d[2])), ("baz", own_cat(d[3]))];
+            match eval_q(&small, q) {
+                Ok(QueryReply::UnitsFor(r)) => {
+                    let mut seen_cats: Vec<Option<String>> = vec![];
+                    let mut seen_units: Vec<String> = vec![];
+                    for g in &r.units {
+                        let cat = g.category.clone();
+                        if seen_cats.contains(&cat) {
+                            out = out.viol("units for: a category is listed more than once", format!("`{}` on {:?}: {:?} again", q, text, cat));
+                        }
+                        seen_cats.push(cat.clone());
+                        if g.units.is_empty() {
+                            out = out.viol("units for: empty group", format!("`{}` on {:?}", q, text));
+                        }
+                        for u in &g.units {
+                            if seen_units.contains(u) {
+                                out = out.viol("units for: a unit is listed more than once", format!("`{}` on {:?}: {}", q, text, u));
+                            }
+                            seen_units.push(u.clone());
+                            if let Some((_, wc)) = want.iter().find(|(n, _)| n == u) {
+                                if wc != &cat {
+                                    out = out.viol("units for: a unit is listed under another category than its own", format!("`{}` on {:?}: {} under {:?}, defined in {:?}", q, text, u, cat, wc));
+                                }
+                            }
+                        }
+                    }
+                    // the list is for the dimensionality of the query: `foo` for all but the last query
+                    if d[4] != 3 {
+                        for n in ["bar", "baz", base_name] {
+                            if !seen_units.iter().any(|u| u == n) {
+                                out = out.viol("units for: a unit of the small database is missing", format!("`{}` on {:?}: {}", q, text, n));
+                            }
+                        }
+                        if seen_units.len() != 3 {
+                            out = out.viol("units for: lists a name that is not a unit of that dimensionality in the context that was asked", format!("`{}` on {:?}: {:?}", q, text, seen_units));
+                        }
+                    }
+                }
+                Ok(o) => out = out.viol("units for: unexpected reply", format!("`{}` -> {}", q, reply_kind(&o))),
+                Err(e) => out = out.viol("units for: refused", format!("`{}` on {:?}: {}", q, text, e)),
+            }
+            return out;
         }
         let (f, d) = self.fams.locate(idx);
         let x = &self.xs[d[0] as usize];
